@@ -30,4 +30,29 @@ func init() {
 		Outside:     []string{"exponents >= 10 (quick: >= 5)", "magnitudes >= 2^52 units of the working precision (excluded by the property)", "division by a zero amount"},
 		Assumptions: []string{"operands, exact intermediates and results lie within 2^52 units (the property's stated domain)", "go/ssa is faithful to the source; z3 is sound", "float model is a sound over-approximation of binary64 (DESIGN 3.2)"},
 	})
+	reg(&propCfg{
+		ID:      "C06",
+		Pkgs:    []string{"num"},
+		Lenient: []string{"num"},
+		Stages: []stage{
+			{Name: "L0", Harness: `^H_C05_L0_`},
+			{Name: "codec", Harness: `^H_C06_(Parse|Unmarshal|WriteAmount)`},
+			{Name: "pct-writer", Harness: `^H_C06_WritePercentage`, Subst: numSummaries, Needs: []string{"L0"}},
+		},
+		Functions: []string{"num.AmountFromString", "num.Amount.UnmarshalText", "num.Amount.UnmarshalJSON", "num.unquote", "num.Amount.String", "num.Amount.MarshalText",
+			"num.PercentageFromString", "num.PercentageFromAmount", "num.Percentage.String", "num.Percentage.StringWithoutSymbol", "num.Percentage.Amount", "num.Amount.JSONSchema", "num.Percentage.JSONSchema",
+			"strconv.ParseInt", "strconv.ParseUint", "strconv.FormatUint", "strings.Split/genSplit", "strings.TrimPrefix"},
+		Stubs: []string{"fmt.Sprintf: Go model (vrt.ModelSprintf) for %d %s %0*d", "strings.Index/Count/HasPrefix, bytealg.IndexByteString/CountString: Go loop models", "fmt.Errorf: opaque error object (only nil-ness observed)",
+			"published pattern: NFA built by regexp/syntax from Amount{}.JSONSchema().Pattern, required equal to data/schemas/num/*.json", "float model as in C05 for the percentage rescale"},
+		Bounds: map[string][]string{
+			"quick":    {"reader: every string of 0..5 arbitrary bytes (all 256 values per byte, symbolic)", "long digit strings: 17..20 integer digits + 0..2 fraction digits, optional sign (digits symbolic)", "writer: every int64 value x exponent 0..18", "percent writer: |v| < 2^52/10^4, exponent 0..8"},
+			"thorough": {"reader: every string of 0..8 arbitrary bytes (symbolic)", "long digit strings as quick", "writer: every int64 value x exponent 0..18", "percent writer as quick"},
+		},
+		Outside:     []string{"strings longer than the bound that are not pure digit strings", "percentages beyond the C05 domain (writer)"},
+		Assumptions: []string{"percentage reader: the documented factor form without % and the empty string are accepted by design (doc comment of PercentageFromString); the oracle allows exactly those", "go/ssa faithful; z3 sound; models differential-tested"},
+	})
+}
+
+func init() {
+	reg(&propCfg{ID: "T", Pkgs: []string{"num"}, Lenient: []string{"num"}, Stages: []stage{{Name: "t", Harness: `^H_T_`}}, Bounds: map[string][]string{}})
 }
